@@ -22,6 +22,9 @@ def check(run):
              'expired, re-seeding it from the sentinel, then folds in the current element')
     run.rule('NORM.formula', 'min-max closed form and its null guards')
     add_rules(run, ['GATE.form', 'GATE.dom', 'GATE.intrinsic', 'GATE.K'])
+    run.rule('LEN.free', 'nothing a rolling kernel closure reads is computed from the length of '
+             'the series (which is information about positions right of the cursor); only the window '
+             'handed to the driver and the default of an omitted min_periods may be')
     run.rule('ACC.exact', 'min / max / arg-extrema / rank kernels keep no arithmetic '
              'accumulator besides the validity count, so pre-window history cannot leak into '
              'them through rounding')
@@ -48,6 +51,7 @@ def check(run):
             if any(b['name'] == 'min_periods' for p_ in k.fn.params for b in _pat_binds(p_)):
                 from C01 import expected_K
                 acc.check_gate(run, m, expected_K(k.name))
+            acc.check_len_free(run, k)
             if k.fn.file.endswith('cmp.rs'):
                 m.classify()
                 arith = [a['name'] for a in m.accumulators().values()
